@@ -39,6 +39,7 @@ pub const E_FRONT_GUARD: u64 = 3;
 pub const E_BACK_GUARD: u64 = 4;
 pub const E_DOUBLE_FREE: u64 = 5;
 pub const E_ZERO_SIZE: u64 = 6;
+pub const E_IMPOSSIBLE_LAYOUT: u64 = 7;
 
 fn record(code: u64, a: u64, b: u64, c: u64) {
     ERRORS_TOTAL.fetch_add(1, Ordering::SeqCst);
@@ -60,8 +61,13 @@ unsafe impl GlobalAlloc for CheckAlloc {
             // a zero-sized allocation request is undefined behaviour for GlobalAlloc
             record(E_ZERO_SIZE, layout.align() as u64, 0, 0);
         }
+        if layout.size() > isize::MAX as usize - (layout.align() - 1) {
+            // no safely constructed Layout has such a size: it was built unchecked
+            record(E_IMPOSSIBLE_LAYOUT, layout.size() as u64, layout.align() as u64, 0);
+            return std::ptr::null_mut();
+        }
         let front = front_of(layout.align());
-        let total = front + layout.size() + BACK;
+        let Some(total) = front.checked_add(layout.size()).and_then(|t| t.checked_add(BACK)) else { return std::ptr::null_mut() };
         let real = match Layout::from_size_align(total, front_of(layout.align()).min(4096).max(layout.align())) {
             Ok(l) => l,
             Err(_) => return std::ptr::null_mut(),
@@ -159,6 +165,7 @@ pub fn describe(r: &AllocReport) -> String {
         E_BACK_GUARD => "write past the end of an allocation (back guard band damaged)",
         E_DOUBLE_FREE => "double free",
         E_ZERO_SIZE => "zero-sized allocation request",
+        E_IMPOSSIBLE_LAYOUT => "allocation request with a size no valid Layout can have (size, align)",
         _ => "unknown",
     };
     format!("{} allocator error(s); first: {what} {:?}", r.errors, &r.first[1..])
